@@ -1,5 +1,6 @@
 From Coq Require Extraction ExtrOcamlBasic.
-From Wz Require Import lib.Bytes lib.Utf8 lib.ExtractBase C03.Gen C03.Trie C03.Model C04.Model.
+From Wz Require Import lib.Bytes lib.Utf8 lib.ExtractBase C03.Gen C03.Trie C03.Model C04.Model C04.Factories.
 Extraction Language OCaml.
 Extraction "C04/model_extracted.ml" force_types map_match no_hooks to_url to_python unquote quote adapter_build build_then_match
-  build_rule rules_for suitable_for in_lang lang_of.
+  build_rule rules_for suitable_for in_lang lang_of
+  submount with_dom with_endpoint template adapter_build_q.
